@@ -24,6 +24,10 @@ static size_t ser_buf(int fmt, JsonVariantConst v, void* p, size_t n) {
 template <class D> static size_t ser_to(int fmt, JsonVariantConst v, D& d) {
   return fmt == 0 ? serializeJson(v, d) : fmt == 1 ? serializeJsonPretty(v, d) : serializeMsgPack(v, d);
 }
+// the same through the overloads that take the source as a document / a typed reference
+template <class S, class D> static size_t ser_src(int fmt, const S& src, D& d) {
+  return fmt == 0 ? serializeJson(src, d) : fmt == 1 ? serializeJsonPretty(src, d) : serializeMsgPack(src, d);
+}
 static size_t measure(int fmt, JsonVariantConst v) {
   return fmt == 0 ? measureJson(v) : fmt == 1 ? measureJsonPretty(v) : measureMsgPack(v);
 }
@@ -46,6 +50,13 @@ static std::string handle(const std::vector<std::string>& a) {
     if (os.str() != s1 || n2 != n1) res += " OSTREAM-DIFFERS";
     if (cw.out != s1 || n3 != n1) res += " CUSTOMWRITER-DIFFERS";
     if (pm.out != s1 || n4 != n1) res += " PRINT-DIFFERS";
+    {
+      // the same value serialized through the other entry points (document, typed array / object reference)
+      std::string s7; ser_src(fmt, doc, s7);
+      if (s7 != s1) res += " DOCUMENT-ENTRY-DIFFERS";
+      if (v.is<JsonArrayConst>()) { std::string s8; ser_src(fmt, v.as<JsonArrayConst>(), s8); if (s8 != s1) res += " ARRAYREF-ENTRY-DIFFERS"; }
+      if (v.is<JsonObjectConst>()) { std::string s8; ser_src(fmt, v.as<JsonObjectConst>(), s8); if (s8 != s1) res += " OBJECTREF-ENTRY-DIFFERS"; }
+    }
     if (a[2].find('i') != std::string::npos) {
       // the same document with its non-negative integers stored through signed types: same bytes
       JsonDocument doc2;
